@@ -36,7 +36,7 @@ def run(tier, seed, replay=None):
             rk = lambda: solverkit.ranks(rng, d, rng.choice([3, 4]))
         if decay and rng.random() < 0.4:
             decay = 1e-3                         # steep spectra (1, 1e-3, 1e-6, 1e-9 per bond): components far below sqrt(machine eps) are genuine data for a tight eps
-        uneven = (i < 4 or 10 <= i < 16) if tier == "quick" else i < 60          # bonds that converge at different sweeps: high product ranks inside, a low-rank last bond
+        uneven = (i < 4 or 20 <= i < 26) if tier == "quick" else (i < 4 or 20 <= i < 76)          # bonds that converge at different sweeps: high product ranks inside, a low-rank last bond
         if uneven:
             routine = "dmrg_hadamard" if i % 2 == 0 else "fast_matvec"
             N = rng.choice([[4, 4, 4, 4, 2], [5, 4, 3, 3, 2], [6, 5, 3, 2, 2, 2], [4, 4, 4, 3, 2]]); d = len(N); M = list(N)
